@@ -11,6 +11,15 @@ CHECKS = {
  "C09": ("exploration", "property-based testing: images x all conformant encodings from an independent nondeterministic reference encoder; oracle = source image + independent reference decoder",
          "Every tiny image with every encoding (capped), plus generated images up to 64x64 (256x256 thorough) with randomly chosen conformant encodings for interleaved RLE, planar RLE and raw; library output must equal the source image byte for byte.",
          "Trusted: reference encoder/decoder written from MS-RDPBCGR/MS-RDPEGDI (cross-checked against each other on every case; a disagreement is exit 2). Domain restrictions: no BG/FG/FGBG order straddles the first scanline boundary; raw 16 bpp only for even widths.", "DESIGN §6 C09"),
+ "C13": ("exploration", "property-based testing: generated frame sequences x read-chunk schedules against a reference deframer with a consumed-byte counter; bounded-exhaustive sweep of all length values",
+         "Every TPKT length (quick: all < 1400 plus strata; thorough: all 65536) and every fast-path length in both forms and every first byte is swept with several chunk schedules; generated multi-frame streams are read through a chunking transport and compared frame by frame (payload, kind, flags, exact consumption, sentinel frame).",
+         "Trusted: the reference deframer (30 lines, RFC 1006 / MS-RDPBCGR 2.2.9.1.2). First bytes with action bits other than 00/0x03 are only required not to panic. x224 variant uses the verif-hooks constructor.", "DESIGN §6 C13"),
+ "C14": ("fault_enumeration", "property-based testing with injected faults: generated payload sizes x short-write/EINTR/zero schedules x a hard write error at every byte position, oracle = prefix/completeness against reference framing",
+         "All boundary lengths, every error position of small frames and every fixed cap are enumerated; generated schedules cover random caps, Ok(0), EINTR. Bytes accepted by the adversarial stream must be a prefix of the reference frame, Ok implies completeness, a healthy stream implies Ok, oversize implies Err with nothing written.",
+         "Trusted: the adversarial Write implementation. Ok(0)/EINTR may be retried or reported (both allowed).", "DESIGN §6 C14"),
+ "C16": ("exploration", "property-based testing: generated key material and bidirectional message histories against an independent MS-NLMP seal/unseal model; exhaustive single-bit flips, truncations and extensions",
+         "Every gss_wrapex output in a history is compared byte for byte with an independent implementation pinned by the MS-NLMP 4.2.4 vectors; reference-server messages must unseal; every single-bit flip / truncation / extension of every server message of a set of histories must be rejected.",
+         "Trusted: refimpl::crypto (own RC4 + RustCrypto md5/hmac pinned by RFC vectors and MS-NLMP 4.2.4.4).", "DESIGN §6 C16"),
 }
 NOT_YET = "check not built yet in this session (machinery under construction; see DESIGN.md §10 build order)"
 def main():
